@@ -46,7 +46,8 @@ def gen_buffers(ctx):
             if n: d[rng.randrange(n)] = 1 << rng.randrange(8)
             d = bytes(d)
         bufs.append(d)
-    for n in ([4096, 4097, 4111, 4160, 4199] if ctx.quick() else list(range(4090, 4230)) + [65536, 65539, 100001]):
+    # a few long buffers (vectorised implementations switch strategy above some size, e.g. align the pointer first): all 16 alignments
+    for n in ([4096, 4097, 4111, 4160, 4199, 16383, 16400, 16447, 33000] if ctx.quick() else list(range(4090, 4230)) + [16383, 16384, 16385, 16400, 16415, 16447, 20011, 32768, 33000, 65536, 65539, 100001, 262147]):
         bufs.append(bytes(rng.getrandbits(8) for _ in range(n)))
     return bufs
 
@@ -91,7 +92,7 @@ def run(ctx):
         lines, meta = [], []
         for (d, init) in keys:
             n = len(d)
-            aligns = {rng.randrange(64), (n * 7) % 64} if n > 40 else set(range(0, 16)) if n % 4 == 0 else {rng.randrange(64), 0, 1 + rng.randrange(7)}
+            aligns = set(range(16)) | {rng.randrange(64)} if n >= 16000 else {rng.randrange(64), (n * 7) % 64} if n > 40 else set(range(0, 16)) if n % 4 == 0 else {rng.randrange(64), 0, 1 + rng.randrange(7)}
             for impl in 'gap':
                 for al in aligns:
                     lines.append('%s %d %x %s' % (impl, al, init, d.hex() or '-'))
